@@ -324,31 +324,46 @@ def build_model():
         for f in os.listdir(odir):
             if f.endswith((".ml", ".mli", ".cmi", ".cmx", ".o", ".cmo")):
                 os.remove(os.path.join(odir, f))
-        order = ["driver_base.ml"]
-        with open(os.path.join(src, "driver_base.ml")) as a, open(os.path.join(odir, "driver_base.ml"), "w") as bf:
-            bf.write(a.read())
+        def cp(srcp, dst):
+            with open(srcp, "rb") as a_, open(os.path.join(odir, dst), "wb") as b_:
+                b_.write(a_.read())
+
+        def occ(files):
+            return sh(["ocamlfind", "ocamlopt", "-O2", "-w", "-a", "-package", "str,unix", "-c"] + files,
+                      cwd=odir, timeout=900)
+        cp(os.path.join(src, "driver_base.ml"), "driver_base.ml")
+        rc, out, err = occ(["driver_base.ml"])
+        if rc != 0:
+            return False, log + out + err, exe
+        objs = ["driver_base.cmx"]
         conv = open(os.path.join(src, "conv_template.ml")).read()
         for f in good:
             for ext in (".mli", ".ml"):
-                with open(os.path.join(COQ, "mdl_%s%s" % (f, ext)), "rb") as a, open(os.path.join(odir, "mdl_%s%s" % (f, ext)), "wb") as bf:
-                    bf.write(a.read())
-            order += ["mdl_%s.mli" % f, "mdl_%s.ml" % f]
+                cp(os.path.join(COQ, "mdl_%s%s" % (f, ext)), "mdl_%s%s" % (f, ext))
+            files = ["mdl_%s.mli" % f, "mdl_%s.ml" % f]
+            fobjs = ["mdl_%s.cmx" % f]
             opsf = os.path.join(src, "ops_%s.ml" % f)
-            if not os.path.exists(opsf):
+            if os.path.exists(opsf):
+                with open(os.path.join(odir, "conv_%s.ml" % f), "w") as bf:
+                    bf.write("open Mdl_%s\n" % f + conv)
+                with open(os.path.join(odir, "ops_%s.ml" % f), "w") as bf:
+                    bf.write("module Mdl = Mdl_%s\nmodule Driver_core = struct include Driver_base include Conv_%s end\n"
+                             % (f, f))
+                    bf.write("# 1 \"ops_%s.ml\"\n" % f)
+                    bf.write(open(opsf).read())
+                files += ["conv_%s.ml" % f, "ops_%s.ml" % f]
+                fobjs += ["conv_%s.cmx" % f, "ops_%s.cmx" % f]
+            rc, out, err = occ(files)
+            if rc != 0:
+                # one family's glue does not compile: leave it out, keep the others usable
+                bad.append(f)
+                log += "\nOCAML BUILD FAILED for family %s:\n%s%s\n" % (f, out, err)
                 continue
-            with open(os.path.join(odir, "conv_%s.ml" % f), "w") as bf:
-                bf.write("open Mdl_%s\n" % f + conv)
-            with open(os.path.join(odir, "ops_%s.ml" % f), "w") as bf:
-                bf.write("module Mdl = Mdl_%s\nmodule Driver_core = struct include Driver_base include Conv_%s end\n"
-                         % (f, f))
-                bf.write("# 1 \"ops_%s.ml\"\n" % f)
-                bf.write(open(opsf).read())
-            order += ["conv_%s.ml" % f, "ops_%s.ml" % f]
+            objs += fobjs
         with open(os.path.join(src, "driver_main.ml")) as a, open(os.path.join(odir, "driver_main.ml"), "w") as bf:
             bf.write(a.read().replace("Driver_core.handlers", "Driver_base.handlers"))
-        order.append("driver_main.ml")
         rc, out, err = sh(["ocamlfind", "ocamlopt", "-O2", "-w", "-a", "-package", "str,unix", "-linkpkg",
-                           "-o", exe] + order, cwd=odir, timeout=900)
+                           "-o", exe] + objs + ["driver_main.ml"], cwd=odir, timeout=900)
         if rc != 0:
             return False, log + out + err, exe
         open(keyf, "w").write(key)
@@ -532,15 +547,23 @@ class Ctx:
                 self._impl = exe
         return self._impl
 
-    def model(self):
+    def model(self, family=None):
+        """Path of the model driver. A family whose extraction or glue fails to build is left out of the
+        driver (its ops answer `unsupported`); that is a broken tie only for the property that needs it."""
         if self._model is None:
             self.log("building extracted model driver")
             ok, log, exe = build_model()
-            if not ok:
+            self._model_log = log
+            if not os.path.exists(exe):
                 self.broken("model-driver-build", log[-3000:])
                 self._model = ""
             else:
                 self._model = exe
+        if family and self._model:
+            m = re.search(r"(EXTRACTION FAILED for families: [^\n]*\b%s\b|OCAML BUILD FAILED for family %s:)" % (family, family),
+                          self._model_log)
+            if m:
+                self.broken("model-driver-build:" + family, self._model_log[-2000:])
         return self._model
 
     # ---- results -----------------------------------------------------------
